@@ -165,3 +165,89 @@ Proof.
       destruct e; simpl in Hs; rewrite ?andb_false_r in Hs; try discriminate;
         repeat (apply andb_prop in Hs; destruct Hs as [Hs ?]); discriminate.
 Qed.
+
+(* completeness of the monitor: every trace of the conforming shape - zero-length byte chunks, one
+   well-formed start_response, byte chunks (zero-length only for HEAD), one close at the very end - is accepted *)
+Definition zero_chunk (e : wevent) : Prop := e = EChunk 0 true.
+Definition body_chunk (head : bool) (e : wevent) : Prop := exists n, e = EChunk n true /\ (head = true -> n = 0).
+
+Definition conforming (head : bool) (t : list wevent) : Prop :=
+  exists pre post, t = pre ++ EStart true true :: post ++ [EClose] /\
+                   Forall zero_chunk pre /\ Forall (body_chunk head) post.
+
+Lemma fold_zero_chunks head pre : Forall zero_chunk pre ->
+  forall s, m_ok s = true -> m_closed s = false -> fold_left (mstep head) pre s = s.
+Proof.
+  induction 1 as [|e r He Hr IH]; intros s Hok Hcl; simpl; [reflexivity|]. rewrite He. simpl.
+  rewrite IH; destruct s as [st bd cl ok]; simpl in *; subst; simpl; rewrite ?orb_false_r; reflexivity.
+Qed.
+
+Lemma fold_body_chunks head post : Forall (body_chunk head) post ->
+  forall s, m_ok s = true -> m_closed s = false -> m_started s = 1 ->
+  let s' := fold_left (mstep head) post s in m_ok s' = true /\ m_closed s' = false /\ m_started s' = 1.
+Proof.
+  induction 1 as [|e r He Hr IH]; intros s Hok Hcl Hst; simpl; [auto|].
+  destruct He as [n [-> Hn]]. apply IH; simpl; [|exact Hcl|exact Hst].
+  rewrite Hok, Hcl, Hst. simpl. destruct head; simpl.
+  - rewrite (Hn eq_refl). reflexivity.
+  - rewrite orb_true_r. reflexivity.
+Qed.
+
+Theorem monitor_complete head t : conforming head t -> monitor head t = true.
+Proof.
+  intros (pre & post & -> & Hpre & Hpost). unfold monitor.
+  rewrite fold_left_app. rewrite (fold_zero_chunks head pre Hpre) by reflexivity.
+  simpl. rewrite fold_left_app. simpl.
+  match goal with |- context [fold_left (mstep head) post ?S] =>
+    destruct (fold_body_chunks head post Hpost S eq_refl eq_refl eq_refl) as (H1 & H2 & H3) end.
+  rewrite H1, H2, H3. reflexivity.
+Qed.
+
+(* and conversely: soundness recast in the same shape, so that the monitor decides exactly [conforming] *)
+Lemma split_at_start t : count_starts t = 1 ->
+  exists pre so ho post, t = pre ++ EStart so ho :: post /\ count_starts pre = 0 /\ count_starts post = 0.
+Proof.
+  induction t as [|e r IH]; simpl; [discriminate|]. destruct e as [so ho|n b|]; intros H.
+  - exists [], so, ho, r. simpl. split; [reflexivity|split; [reflexivity|lia]].
+  - destruct (IH H) as (pre & so & ho & post & -> & H1 & H2). exists (EChunk n b :: pre), so, ho, post. simpl. auto.
+  - destruct (IH H) as (pre & so & ho & post & -> & H1 & H2). exists (EClose :: pre), so, ho, post. simpl. auto.
+Qed.
+
+Lemma count_starts_app a b : count_starts (a ++ b) = count_starts a + count_starts b.
+Proof. induction a as [|e r IH]; simpl; [reflexivity|]. destruct e; simpl; rewrite IH; reflexivity. Qed.
+
+Theorem monitor_exact head t : monitor head t = true <-> conforming head t.
+Proof.
+  split; [|apply monitor_complete].
+  intros H. destruct (monitor_sound head t H) as (Hc & Hstart & Hchunks & (body & Ht & Hnc)).
+  destruct (split_at_start t Hc) as (pre & so & ho & post & Hsp & Hp0 & Hq0).
+  destruct (Hstart pre so ho post Hsp) as (-> & -> & Hz).
+  (* post ends with the close *)
+  assert (Hpost : exists post', post = post' ++ [EClose]).
+  { destruct (@exists_last _ post) as (post' & e & Hpe).
+    - intros ->. rewrite Hsp in Ht. 
+      assert (Hl : last (pre ++ [EStart true true]) EClose = last (body ++ [EClose]) EClose) by (rewrite Ht; reflexivity).
+      rewrite !last_last in Hl. discriminate.
+    - exists post'. rewrite Hpe in Hsp. rewrite Hsp in Ht.
+      assert (Hl : last (pre ++ EStart true true :: post' ++ [e]) EClose = last (body ++ [EClose]) EClose) by (rewrite Ht; reflexivity).
+      replace (pre ++ EStart true true :: post' ++ [e]) with ((pre ++ EStart true true :: post') ++ [e]) in Hl
+        by (rewrite <- app_assoc; reflexivity).
+      rewrite !last_last in Hl. subst e. exact Hpe. }
+  destruct Hpost as [post' ->].
+  assert (Hbody : body = pre ++ EStart true true :: post').
+  { rewrite Hsp in Ht.
+    replace (pre ++ EStart true true :: post' ++ [EClose]) with ((pre ++ EStart true true :: post') ++ [EClose]) in Ht
+      by (rewrite <- app_assoc; reflexivity).
+    apply app_inj_tail in Ht. destruct Ht as [Ht _]. symmetry. exact Ht. }
+  exists pre, post'. split; [exact Hsp|]. split.
+  - apply Forall_forall. intros e He. destruct e as [so ho|n b|].
+    + exfalso. apply in_split in He. destruct He as (a & b & ->). rewrite count_starts_app in Hp0. simpl in Hp0. lia.
+    + unfold zero_chunk. rewrite (Hz n b He). destruct (Hchunks n b) as [-> _]; [rewrite Hsp; apply in_or_app; left; exact He|reflexivity].
+    + exfalso. apply Hnc. rewrite Hbody. apply in_or_app. left. exact He.
+  - apply Forall_forall. intros e He. destruct e as [so ho|n b|].
+    + exfalso. apply in_split in He. destruct He as (a & b & Hab).
+      rewrite count_starts_app in Hq0. rewrite Hab in Hq0. rewrite count_starts_app in Hq0. simpl in Hq0. lia.
+    + destruct (Hchunks n b) as [-> Hh]; [rewrite Hsp; apply in_or_app; right; right; apply in_or_app; left; exact He|].
+      exists n. split; [reflexivity|exact Hh].
+    + exfalso. apply Hnc. rewrite Hbody. apply in_or_app. right. right. exact He.
+Qed.
